@@ -4,6 +4,7 @@ import RaptorModel.Driver.C02
 import RaptorModel.Driver.C06
 import RaptorModel.Driver.C03
 import RaptorModel.Driver.C04
+import RaptorModel.Driver.C05
 /-!
 `rmdrv <casefile>` — reads one case per line (`<prop> <op> <int> <int> ...`), runs the executable
 model and the decidable specification predicates, prints one verdict line per case:
@@ -19,6 +20,7 @@ def dispatch (prop op : String) (a : Array Int) : Verdict :=
   | "C06" => C06.run op a
   | "C03" => C03.run op a
   | "C04" => C04.run op a
+  | "C05" => C05.run op a
   | _ => badCase s!"unknown property {prop}"
 
 def parseLine (line : String) : Option (String × String × Array Int) :=
